@@ -48,6 +48,7 @@ def build_class(it, node, fr):
             continue
         if isinstance(s, ast.FunctionDef):
             f = FuncVal(s, cls.module, cls=cls, closure=fr)
+            f.decorators = s.decorator_list
             dn = _decorator_names(s)
             f.kind = 'static' if 'staticmethod' in dn else 'class' if 'classmethod' in dn else \
                 'property' if 'property' in dn else 'method'
